@@ -8,11 +8,19 @@ import collections
 import json
 
 MAX_STATES = 6000
+import importlib
+import sys
+
+sys.path.insert(0, "/verif")
 weights = json.load(open("/verif/props/weights.json"))
+OWN_ONLY = set()
+for i in range(1, 16):
+    mod = importlib.import_module(f"props.c{i:02d}")
+    OWN_ONLY |= {(f"C{i:02d}", c["name"]) for c in mod.cells("quick") if c.get("own_only")}
 hot = collections.defaultdict(set)
 for line in open("/verif/seeded/hot_cells.txt"):
     prop, mutant, cell = line.rstrip("\n").split("\t")
-    if cell.startswith("[core"):
+    if cell.startswith("[core") or (prop, cell) in OWN_ONLY:
         continue
     w = weights.get(prop, {}).get(cell)
     if w is not None and w <= MAX_STATES:
